@@ -10,6 +10,7 @@ and query class.  Exceptions raised by rsome where the property promises a value
 exceptions of this module are machinery errors (propagate).
 """
 import math
+import copy
 import traceback
 
 import numpy as np
@@ -50,10 +51,37 @@ def _close(got, want, tol=TOL):
     return 'bad'
 
 
+def _deepcopy(val):
+    """copy.deepcopy does not copy the objects held by an object-dtype pandas Series."""
+    try:
+        import pandas as pd
+        if isinstance(val, pd.Series):
+            return pd.Series([copy.deepcopy(v) for v in val], index=val.index.copy())
+    except Exception:
+        pass
+    return copy.deepcopy(val)
+
+
+def _clobber(val):
+    """Overwrite a returned array in place (as callers do: w *= 100, w[w < eps] = 0). If the library handed out
+    a view of its solution vector, every later query of the scene is wrong and is judged so."""
+    try:
+        import pandas as pd
+        items = list(val) if isinstance(val, pd.Series) else [val]
+    except Exception:
+        items = [val]
+    for a in items:
+        if isinstance(a, np.ndarray) and a.ndim > 0 and a.flags.writeable and a.dtype.kind == 'f':
+            a[...] = 12345.678
+
+
 def _run(f):
     """Run a query; ('val', value) or ('exc', TypeName, message, raised_inside_rsome)."""
     try:
-        return ('val', f())
+        val = f()
+        keep = _deepcopy(val)
+        _clobber(val)      # queries are pure: what a caller does to a returned array must not change later answers
+        return ('val', keep)
     except Exception as e:   # noqa
         tb = traceback.extract_tb(e.__traceback__)
         in_lib = any('/rsome/' in fr.filename for fr in tb)
